@@ -1,3 +1,4 @@
+import re
 """Rule pieces shared between properties."""
 from ..astutil import kids, strip, walk, callee_ref, render, is_null_expr, loc
 from ..frontend import AnalysisBroken
@@ -88,3 +89,42 @@ def sigval(canon):
         return int(c)
     except ValueError:
         return None
+
+
+def same_object(m, a, b):
+    """Canonical pointer expressions denote the same object address modulo first-member embedding:
+    '&x->core' == 'x' when 'core' is the first member of a record (base-class idiom)."""
+    first = getattr(m, "_first_fields", None)
+    if first is None:
+        first = {fl[0][0] for fl in m.records.values() if fl and fl[0][0]}
+        m._first_fields = first
+
+    def norm(t):
+        t = t.strip()
+        changed = True
+        while changed:
+            changed = False
+            while t.startswith("(") and t.endswith(")") and t.count("(") == t.count(")") and _balanced(t[1:-1]):
+                t = t[1:-1]
+                changed = True
+            mm = re.fullmatch(r"&(.+)->(\w+)", t)
+            if mm and mm.group(2) in first and _balanced(mm.group(1)):
+                t = mm.group(1)
+                changed = True
+                continue
+            mm = re.fullmatch(r"&(.+)\.(\w+)", t)
+            if mm and mm.group(2) in first and _balanced(mm.group(1)):
+                t = "&" + mm.group(1)
+                changed = True
+        return t
+    return norm(a) == norm(b)
+
+
+def _balanced(t):
+    d = 0
+    for ch in t:
+        d += ch == "("
+        d -= ch == ")"
+        if d < 0:
+            return False
+    return d == 0
